@@ -238,6 +238,32 @@ func c07Verify(m *Model, v *Verdict, rng *RNG, ct, et int32, key []byte, usage u
 		c[i/8] ^= 1 << uint(i%8)
 		check("bitflip", key, data, c, usage, false)
 	}
+	if len(sum) >= 2 {
+		for k := 0; k < 6; k++ {
+			i, j := rng.Intn(len(sum)), rng.Intn(len(sum))
+			if i == j {
+				j = (i + 1) % len(sum)
+			}
+			d := byte(1 << uint(rng.Intn(8)))
+			if k >= 3 {
+				d = byte(1 + rng.Intn(255))
+			}
+			c := append([]byte{}, sum...)
+			c[i] ^= d
+			c[j] ^= d
+			check("two-octets-same-delta", key, data, c, usage, false)
+		}
+		// a value whose octets fold to the same value as the checksum's
+		x := byte(0)
+		for _, b := range sum {
+			x ^= b
+		}
+		c := make([]byte, len(sum))
+		c[0] = x
+		if string(c) != string(sum) {
+			check("same-xor-fold", key, data, c, usage, false)
+		}
+	}
 	d2 := append(append([]byte{}, data...), 0)
 	check("other-data", key, d2, sum, usage, false)
 	if len(data) > 0 {
